@@ -276,7 +276,58 @@ def read_faults(r, tier):
                             break
                     if inp.failed:
                         r.count("distinct_nontrivial")
-    r.sample({"mode": "readfault", "kinds": [k for k, v in KINDS.items() if len(v[0]) >= 3], "fail_at": "every read", "depth": depth})
+    # the same on ASGI: one receive() call fails (the server lost the connection while reading), later calls succeed again
+    from baize.asgi import Request as AReq_
+    for kind, (B, ct) in KINDS.items():
+        if len(B) < 3:
+            continue
+        third = max(len(B) // 3, 1)
+        chunks = [B[:third], B[third:2 * third], B[2 * third:]]
+        for fail_at in range(0, len(chunks)):
+            for n in range(1, depth + 1):
+                for seq in itertools.product([a for a in ACCESSES if a != "close"] + ["obtain", "drain"], repeat=n):
+                    if "drain" in seq and "obtain" not in seq[:seq.index("drain")]:
+                        continue
+                    areq = make_req(kind, chunks)
+                    msgs = SV.to_messages(areq)
+                    st = {"i": 0, "calls": 0, "failed": False}
+                    results = []
+                    with Session() as s:
+                        async def receive():
+                            st["calls"] += 1
+                            if not st["failed"] and st["calls"] - 1 == fail_at:
+                                st["failed"] = True
+                                raise ConnectionResetError("connection reset by peer")
+                            if st["i"] < len(msgs):
+                                st["i"] += 1
+                                return dict(msgs[st["i"] - 1])
+                            await s.env.gate("never")
+
+                        req = AReq_(SV.to_scope(areq), receive)
+                        keep = []
+
+                        async def prog():
+                            for op in seq:
+                                got, obj = await asgi_access(req, op, keep)
+                                results.append(got)
+                        task = s.loop.create_task(prog())
+                        s.drive(task, [], max_timers=len(seq), env_filter=lambda nm: False)
+                    r.count("evaluations")
+                    r.count("traces")
+                    r.count("distinct_nontrivial")
+                    for i, (op, got) in enumerate(zip(seq, results)):
+                        bad = None
+                        if got[0] == "v" and op in ("body", "stream_full", "drain") and got[1] != B:
+                            bad = f"returned {got[1]!r:.60}, the body is {B!r:.60}"
+                        elif got[0] == "v" and op == "json" and got[1] != _json.loads(B):
+                            bad = f"returned {got[1]!r:.60} for the document {B!r:.60}"
+                        elif got[0] == "form" and not compare(got, ("form", EXPECT_FORM[kind]), B):
+                            bad = f"returned the form {got[1]!r:.80}, the body holds {EXPECT_FORM[kind]!r:.80}"
+                        if bad:
+                            r.violation(f"readfault:asgi:{op}:truncated", {"mode": "readfault", "kind": kind, "fail_at": fail_at, "seq": list(seq), "iface": "asgi"},
+                                        f"asgi {kind} body in messages {[len(c) for c in chunks]}, receive() call number {fail_at} fails once with ConnectionResetError, accesses {list(seq)} gave {results!r:.200}: step {i} ({op}) {bad}")
+                            break
+    r.sample({"mode": "readfault", "kinds": [k for k, v in KINDS.items() if len(v[0]) >= 3], "fail_at": "every read / every receive() call", "depth": depth})
 
 
 def run_sequence(iface, kind, chunks, seq, disc_at=None):
